@@ -148,6 +148,20 @@ class LP(object):
         return "optimal", self.lin(c, x), x, dict(y=y, d=d, sgn=sgn)
 
 
+def exists_point(E, lp, name, extra=None, tag=None):
+    """fork on 'the LP (plus an optional extra condition extra(point, slack)) has a point'.  On a numeric replay an instance
+    that is infeasible by less than 1e-3 gives no verdict (a float solver may legitimately call it feasible): Abort."""
+    x = lp.fresh_point(E, tag or name)
+    f = lp.feasible(x) if extra is None else z3.And(lp.feasible(x), extra(x, 0))
+    if E.exists_fork(list(x.values()), f, name=name):
+        return True
+    if not E.symbolic:
+        rel = lp.feasible(x, slack=1e-3) if extra is None else z3.And(lp.feasible(x, slack=1e-3), extra(x, 1e-3))
+        if E.feasible(rel):
+            raise vsym.Abort("tolerance band: infeasible by less than 1e-3")
+    return False
+
+
 def fba_lp(model, tag="fba", reactions=None):
     """net-flux problem of the model's *Python objects*: one variable per reaction in
     [lb,ub], one equality per metabolite"""
